@@ -416,7 +416,9 @@ class LoaderGroup(Generic[_K, _L]):
         all_results = da.compute(all_tasks)[0]
         out = DataFrameDict()
         for key, result in zip(keys, all_results):
-            out[key] = pl.DataFrame(np.array(result), schema=schema)
+            # NOTE: give the columns one by one. A 2D array is read row-wise by polars
+            # if the number of molecules happens to equal the number of functions.
+            out[key] = pl.DataFrame([np.array(r) for r in result], schema=schema)
         return out
 
     def fsc(
